@@ -52,7 +52,10 @@ func (m *Machine) checkWallets(op string) {
 			m.Fail("C17", "balance_differs_from_stored_proofs", "%s: GetBalance %d, stored spendable proofs sum to %d", h.Name, got, sum)
 		}
 		var byMints uint64
-		for _, v := range h.W.GetBalanceByMints() {
+		for u, v := range h.W.GetBalanceByMints() {
+			if otherSpelling(u) {
+				continue // the same mint under its second name reports the same proofs: one mint, counted once
+			}
 			byMints += v
 		}
 		if byMints != sum {
